@@ -191,7 +191,7 @@ func c15FillSignature(p *bitcoin.Signature, name string) {
 	p.S.SetBytes(sb)
 }
 
-// c15Valid is the documented validity predicate of a payload.
+// c15Valid is the validity predicate of a payload (what Serialize may insist on).
 func c15Valid(m c15Codec) bool {
 	switch v := m.(type) {
 	case *Tx:
@@ -201,7 +201,7 @@ func c15Valid(m c15Codec) bool {
 }
 
 func c15RoundTrip(name string, m c15Codec, mk func() c15Codec, eq func(a, b c15Codec) bool) {
-	verifrt.Assume(c15Valid(m))
+	verifrt.Assume(c15Valid(m)) // the other values: VerifHarness_C15_tx_spent_outputs
 	verifrt.Reach("C15.rt.value-built")
 	// type code / name / payload mapping for this type
 	t := m.Type()
